@@ -49,6 +49,10 @@ type task struct {
 	state taskState
 	wg    *sync.WaitGroup
 	fn    func()
+	// pendingWrite is the lock this task is waiting to write-lock (from its
+	// first failed attempt until it gets the lock).  sync.RWMutex makes new
+	// readers wait behind a waiting writer; TryRLock alone would not.
+	pendingWrite interface{}
 }
 
 // Tape holds the scheduling choices of a run.
@@ -373,9 +377,13 @@ func Yield(site string) {
 
 // Acquire takes a lock: a yield point, then TryLock; a task that cannot get
 // the lock is parked until some lock is released (then it tries again).
+// id identifies the lock (a pointer), write tells Lock from RLock: a read
+// lock is not attempted while another task waits to write-lock the same
+// lock, as in sync.RWMutex (this is what makes a recursive read lock
+// deadlock against a writer).
 //
 //go:norace
-func Acquire(try func() bool, lock func(), site string) {
+func Acquire(id interface{}, write bool, try func() bool, lock func(), site string) {
 	lockState()
 	if !active || ended || cur == nil {
 		unlockState()
@@ -385,7 +393,22 @@ func Acquire(try func() bool, lock func(), site string) {
 	unlockState()
 	Yield("lock " + site)
 	for {
-		if try() {
+		lockState()
+		blockedByWriter := false
+		if !write && id != nil {
+			for _, o := range tasks {
+				if o != cur && o.state != done && o.pendingWrite != nil && o.pendingWrite == id {
+					blockedByWriter = true
+				}
+			}
+		}
+		unlockState()
+		if !blockedByWriter && try() {
+			if write {
+				lockState()
+				cur.pendingWrite = nil
+				unlockState()
+			}
 			return
 		}
 		lockState()
@@ -395,6 +418,9 @@ func Acquire(try func() bool, lock func(), site string) {
 		}
 		t := cur
 		t.state = waitLock
+		if write && id != nil {
+			t.pendingWrite = id
+		}
 		logf("blocked on %s", site)
 		nxt := pickLocked(t)
 		if nxt == nil {
